@@ -145,5 +145,15 @@ package drpchttp
 //@   modifies *
 //@   assumes "the protocol table always contains the fallback entry \"*\" (installed by defaultProtocols)"
 //@   site NewStream assume [fallback-present] arg0 != nil
-//@   site NewStream assumeafter [stream] ret != nil
 //@   check [C14.finish-once] eventCount("invoke:Finish") == 1 && eventCount("invoke:HandleRPC") == 1 && eventAfterLast("invoke:HandleRPC", "invoke:Finish")
+
+//@ extern storj.io/drpc/drpchttp.Protocol.NewStream(recv, rw, req) (st Stream)
+//@   ensures st != nil
+//@ func (grpcWebProtocol).NewStream
+//@   props C14
+//@   requires rw != nil && req != nil
+//@   ensures [stream] result != nil
+//@ func (twirpProtocol).NewStream
+//@   props C14
+//@   requires rw != nil && req != nil
+//@   ensures [stream] result != nil
